@@ -112,7 +112,11 @@ func (e *Entry) onClose() error {
 			err = fmt.Errorf("injected-close-error-r%d", e.Reg)
 		}
 	}
+	panics := w.ClosePanicRegs[e.Reg]
 	w.mu.Unlock()
+	if panics {
+		panic(fmt.Sprintf("injected-close-panic-r%d", e.Reg))
+	}
 	return err
 }
 
@@ -140,25 +144,26 @@ type GatePoint struct {
 
 // World is the per-case universe: ledger, fault plan, registered functions.
 type World struct {
-	mu            sync.Mutex
-	Cfg           *Config
-	M             *Model
-	seq           atomic.Int64
-	serial        int
-	Entries       []*Entry
-	Invs          []*Inv
-	Count         map[int]int
-	Faults        map[[2]int]Fault
-	CloseErr      map[int]error
-	CloseFailRegs map[int]bool // every instance of these registrations fails in Close
-	CloseLog      []*Entry     // instances in the order their Close() was called
-	gateFn        atomic.Pointer[func(GatePoint)]
-	opScope       sync.Map // goid -> scope tag
-	Ctors         map[int]any
-	InstEnt       map[int]*Entry
-	Anomaly       []string
-	inPreBuild    atomic.Bool
-	nilClosesBase int64
+	mu             sync.Mutex
+	Cfg            *Config
+	M              *Model
+	seq            atomic.Int64
+	serial         int
+	Entries        []*Entry
+	Invs           []*Inv
+	Count          map[int]int
+	Faults         map[[2]int]Fault
+	CloseErr       map[int]error
+	CloseFailRegs  map[int]bool // every instance of these registrations fails in Close
+	ClosePanicRegs map[int]bool // the Close method of every instance of these registrations panics
+	CloseLog       []*Entry     // instances in the order their Close() was called
+	gateFn         atomic.Pointer[func(GatePoint)]
+	opScope        sync.Map // goid -> scope tag
+	Ctors          map[int]any
+	InstEnt        map[int]*Entry
+	Anomaly        []string
+	inPreBuild     atomic.Bool
+	nilClosesBase  int64
 
 	// HoldArgs (C14): instances keep what they were constructed with alive, the
 	// ledger keeps no strong reference to built-in arguments.
